@@ -1,4 +1,5 @@
 import LopdfModel.Model.Renumber
+import LopdfModel.Model.Filters
 /-
   C11 — the public editing calls as a state machine `step : Doc → Op → Outcome (Doc × Out)`:
   new_object_id, add_object, set_object (src/creator.rs); delete_object, prune_objects,
@@ -24,10 +25,23 @@ def eraseFirstRef (id : ObjId) : List Obj → List Obj
 (collected first, in order); `remove` is `swap_remove`. -/
 def removeKeys (d : Dict) (ks : List Bytes) : Dict := ks.foldl Dict.remove d
 
+/-- `strip_dict`: remove every direct entry whose value is a reference to `id` -/
+def stripDict (id : ObjId) (es : Dict) : Dict := removeKeys es ((es.filter (fun kv => isRefTo id kv.2)).map (·.1))
+
+/-- since the fix of F-C11-a: EVERY array occurrence, plain dictionaries and a stream's own dictionary -/
 def delFn (id : ObjId) : Obj → Obj
-  | .arr items => .arr (eraseFirstRef id items)
-  | .dict es => .dict (removeKeys es ((es.filter (fun kv => isRefTo id kv.2)).map (·.1)))
+  | .arr items => .arr (items.filter (fun o => !isRefTo id o))
+  | .dict es => .dict (stripDict id es)
+  | .stream es c => .stream (stripDict id es) c
   | o => o
+
+theorem sizeL_filter (p : Obj → Bool) (items : List Obj) : Obj.sizeL (items.filter p) ≤ Obj.sizeL items := by
+  induction items with
+  | nil => simp
+  | cons x xs ih =>
+    simp only [List.filter_cons]; split
+    · simp only [Obj.sizeL]; omega
+    · simp only [Obj.sizeL]; omega
 
 theorem sizeL_eraseFirstRef (id : ObjId) (items : List Obj) : Obj.sizeL (eraseFirstRef id items) ≤ Obj.sizeL items := by
   induction items with
@@ -79,8 +93,9 @@ theorem sizeD_removeKeys (d : Dict) (ks : List Bytes) : Obj.sizeD (removeKeys d 
     exact Nat.le_trans (ih (d.remove k)) (sizeD_remove d k)
 
 theorem delFn_size (id : ObjId) (o : Obj) : (delFn id o).size ≤ o.size := by
-  cases o <;> simp [delFn, Obj.size]
-  · exact sizeL_eraseFirstRef _ _
+  cases o <;> simp [delFn, Obj.size, stripDict]
+  · exact sizeL_filter _ _
+  · exact sizeD_removeKeys _ _
   · exact sizeD_removeKeys _ _
 
 def delAct (id : ObjId) : Action := ⟨delFn id, delFn_size id⟩
@@ -105,6 +120,8 @@ inductive Op where
   | addGState (page : ObjId) (name : Bytes) (gid : ObjId)
   | changeStream (sid : ObjId) (content deflated : Bytes)
   | changePage (page : ObjId) (content deflated : Bytes)
+  | compress (deflate : Bytes → Bytes)
+  | decompress (ext : Ext)
 
 inductive Out where
   | unit
@@ -115,7 +132,8 @@ inductive Out where
 
 /-- `Document::delete_object` -/
 def deleteObject (d : Doc) (id : ObjId) : Doc × Option Obj :=
-  let r := traverse (delAct id) d.trailer d.objects
+  -- references held directly in the trailer are stripped first (they are not values of a visited object)
+  let r := traverse (delAct id) (stripDict id d.trailer) d.objects
   ({ d with trailer := r.1, objects := r.2.1.remove id }, r.2.1.get id)
 
 /-- `Document::prune_objects` -/
@@ -262,6 +280,25 @@ def writeLoc (os : Objects) (loc : ResLoc) (v : Obj) : Objects :=
     | some (.dict pd) => os.set t (.dict (Dict.set pd kResources v))
     | _ => os
 
+/-- `Document::inherited_resources`: the nearest `Resources` entry up the `Parent` chain (direct
+dictionary or reference to one). The code guards against cycles with a seen-set; a chain of distinct
+existing ids is at most `|objects|` long, so the bound below is exact. -/
+def inheritedResAux (os : Objects) : Nat → Option ObjId → Option Dict
+  | 0, _ => none
+  | _, none => none
+  | fuel + 1, some id =>
+    match getDictionary os id with
+    | none => none
+    | some anc =>
+      match Dict.get anc kResources with
+      | some (.ref n g) => getDictionary os (n, g)
+      | some (.dict r) => some r
+      | some _ => none
+      | none => inheritedResAux os fuel ((Dict.get anc PARENT).bind Obj.asRef)
+
+def inheritedRes (os : Objects) (node : Dict) : Dict :=
+  (inheritedResAux os (os.length + 1) ((Dict.get node PARENT).bind Obj.asRef)).getD []
+
 /-- `Document::get_or_create_resources`; `none` = `Err` -/
 def getOrCreateResources (d : Doc) (pageId : ObjId) : Option (Doc × ResLoc) :=
   match getDictionary d.objects pageId with
@@ -277,7 +314,7 @@ def getOrCreateResources (d : Doc) (pageId : ObjId) : Option (Doc × ResLoc) :=
         match d.objects.get t with
         | some (.dict pd) =>
           if Dict.has pd kResources then some (d, .entry t)
-          else some ({ d with objects := d.objects.set t (.dict (Dict.set pd kResources (.dict []))) }, .entry t)
+          else some ({ d with objects := d.objects.set t (.dict (Dict.set pd kResources (.dict (inheritedRes d.objects page)))) }, .entry t)
         | _ => none
 
 /-- `Document::add_xobject` -/
@@ -364,6 +401,9 @@ def step (d : Doc) : Op → Outcome (Doc × Out)
   | .addGState page name gid => .ok (addGraphicsState d page name gid)
   | .changeStream sid content deflated => .ok (changeContentStream (fun _ => deflated) d sid content, .unit)
   | .changePage page content deflated => changePageContent (fun _ => deflated) d page content
+  -- `Document::compress` / `Document::decompress` (model of C09; every stream the harness builds allows compression)
+  | .compress deflate => .ok ({ d with objects := docCompress deflate (fun _ => true) d.objects }, .unit)
+  | .decompress ext => .ok ({ d with objects := docDecompress ext d.objects }, .unit)
 
 /-- a program -/
 def runOps (d : Doc) : List Op → Outcome Doc
